@@ -955,8 +955,12 @@ func (r *Raft) AppendEntries(request *AppendEntriesRequest, response *AppendEntr
 		r.logger.Fatalf("failed to append entries to log: %v", err)
 	}
 
-	if request.LeaderCommit > r.commitIndex {
-		r.commitIndex = numeric.Min(request.LeaderCommit, r.log.LastIndex())
+	// Only the entries up to the last entry of this request are known to match the
+	// leader's log, so the commit index must not move past them even if the local log
+	// is longer.
+	lastVerifiedIndex := request.PrevLogIndex + uint64(len(request.Entries))
+	if commitIndex := numeric.Min(request.LeaderCommit, lastVerifiedIndex); commitIndex > r.commitIndex {
+		r.commitIndex = commitIndex
 		r.applyCond.Broadcast()
 	}
 
